@@ -153,6 +153,9 @@ fn gen_value(src: &mut Src, kind: Kind) -> f64 {
     }
 }
 
+/// Payload of the deliberate panic that unwinds over a local handle.
+pub struct UnwindMarker;
+
 /// One update through local handle `li` for tuple `t`, mirrored in the model.
 fn local_update(w: &mut World, kind: Kind, li: usize, t: &str, v: f64) {
     let t = t.to_string();
@@ -185,7 +188,7 @@ impl Property for C12 {
     }
     fn rule(&self) -> &'static str {
         "case = kind (Counter, IntCounter, Histogram, CounterVec, IntCounterVec, HistogramVec) x history of 5-50 operations over one \
-         shared object and up to 4 local handles: create local, local update, flush (sometimes twice), reset/clear, clone, drop, \
+         shared object and up to 4 local handles: create local, local update, flush (sometimes twice), reset/clear, clone, drop (a third of them by the unwinding of a caught panic), \
          direct shared update, shared reset, and for vectors local with_label_values over 4 overlapping tuples, local \
          remove_label_values, removal / re-creation of a child through the shared vector. Values: small integers / dyadics (histograms: also bucket bounds, NaN, +-Inf, -0.0), ~10% \
          arbitrary finite floats. Oracle: reference model per shared child object (direct updates + flushed batches, float sums \
@@ -392,8 +395,21 @@ impl Property for C12 {
                                 w.deliver_batch(p);
                             }
                         }
-                        drop(l);
-                        log.push(format!("drop L{}", li));
+                        // a third of the drops happen while a (caught) panic unwinds the frame that owns the handle
+                        if src.chance(85) {
+                            let r = std::panic::catch_unwind(std::panic::AssertUnwindSafe(move || {
+                                let _owned = l;
+                                std::panic::panic_any(crate::props::c12::UnwindMarker);
+                            }));
+                            if !matches!(&r, Err(p) if p.is::<UnwindMarker>()) {
+                                return fail("panic:local-drop-in-unwind", "dropping a local handle during unwinding panicked by itself".to_string());
+                            }
+                            rep.class("local-handle-dropped-by-an-unwinding-panic");
+                            log.push(format!("drop(unwind) L{}", li));
+                        } else {
+                            drop(l);
+                            log.push(format!("drop L{}", li));
+                        }
                     }
                 }
                 // ---- direct update of the shared metric
